@@ -393,6 +393,32 @@ def dump_storage(fs, oids, tids):
             d['history ' + key] = [[u64(x['tid']), x['size'], bytes(x['description']).hex()] for x in h]
         except Exception as e:
             d['history ' + key] = ename(e)
+    # iterator(start) at every tid boundary, undoLog, current-record iteration
+    its = []
+    for t in tids:
+        try:
+            it = fs.iterator(p64(t))
+            its.append([u64(x.tid) for x in it])
+            it.close()
+        except Exception as e:
+            its.append(ename(e))
+    d['iterator_start'] = its
+    try:
+        d['undoLog'] = [[base64.decodebytes(x['id'] + b'\n').hex(), bytes(x['description']).hex()]
+                        for x in fs.undoLog(0, -1000)]
+    except Exception as e:
+        d['undoLog'] = ename(e)
+    try:
+        cur, nxt, n = [], None, 0
+        while n < 1000:
+            oid, tid, data, nxt = fs.record_iternext(nxt)
+            cur.append([u64(oid), u64(tid), fnv64(data)])
+            n += 1
+            if nxt is None:
+                break
+        d['record_iternext'] = cur
+    except Exception as e:
+        d['record_iternext'] = ename(e)
     d['lastTransaction'] = u64(fs.lastTransaction())
     d['pos'] = fs._pos
     d['len'] = len(fs)
